@@ -44,6 +44,11 @@ type addrSpec struct {
 	Prog   bool   `json:"progress"`
 	Late   bool   `json:"ignore_cancel"`
 	AddAt  int    `json:"known_from_us"` // becomes known to the peerstore at this time (0: from the start)
+	// Script2: outcome of the 2nd and later transport dials of this address ("" = same as Script)
+	Script2 string `json:"script_from_2nd_dial,omitempty"`
+	// WrapBackoff: a "fail" of this address returns an error that WRAPS swarm.ErrDialBackoff, as the relay
+	// client does when its own dial to the relay is refused for back-off (the dial itself was executed)
+	WrapBackoff bool `json:"failure_wraps_ErrDialBackoff,omitempty"`
 }
 
 type caller struct {
@@ -62,8 +67,13 @@ type scenario struct {
 	CloseAtU   []int      `json:"close_all_conns_at_us"`
 	Round2U    int        `json:"second_round_after_us"` // 0: single round
 	HookDelayU int        `json:"afterdial_hook_delay_us"`
-	PerPeer    int        `json:"per_peer_limit"`
-	FDLimit    int        `json:"fd_limit"`
+	// backoff-join scenarios: caller Joiner joins a worker that is kept alive by a hanging address at a
+	// time when address MustDial is certainly not (or no longer) in back-off for it: it must be handed
+	// to a transport at or after the joiner's call, or the joiner must succeed
+	Joiner   int    `json:"joiner,omitempty"`
+	MustDial string `json:"address_out_of_backoff_for_the_joiner,omitempty"`
+	PerPeer  int    `json:"per_peer_limit"`
+	FDLimit  int    `json:"fd_limit"`
 }
 
 type ev struct {
@@ -239,6 +249,39 @@ func genLateJoin(r *run.R, i int, perPeer, fd int) *scenario {
 	return sc
 }
 
+// genBackoffJoin: back-off state meets a long-lived worker. Round A: a first caller fails on address X
+// (X goes into back-off, 5 s + 1 s after the first failure) and gives up. A second, ordinary caller then
+// starts a worker while X is still in back-off (X is refused for it) and waits on a hanging address. The
+// JOINER joins that worker either 10-12 s later (X's back-off has expired long ago) or within the back-off
+// as a force-direct dial (which skips back-off): X "is neither filtered out nor in back-off" for it and
+// must be handed to a transport. Variant wrapped: an address whose EXECUTED dial fails with an error that
+// wraps ErrDialBackoff (relay client) must not be handed to a transport a second time while callers wait.
+func genBackoffJoin(r *run.R, i int, perPeer, fd int) *scenario {
+	rng := r.Rand(53, uint64(i))
+	pool := swarmrig.Pool(64)
+	sc := &scenario{ID: fmt.Sprintf("backoffjoin/pp%d-fd%d/%d", perPeer, fd, i), Staggered: true, PerPeer: perPeer, FDLimit: fd}
+	x := addrSpec{Name: "tcp-pub", Addr: "/ip4/1.2.3.4/tcp/4001", Class: "must", FD: true, Script: "fail", Script2: []string{"ok", "fail"}[rng.IntN(2)], DelayU: 1007}
+	y := addrSpec{Name: "quic-pub", Addr: "/ip4/1.2.3.5/udp/4001/quic-v1", Class: "must", Script: "hang", DelayU: 7}
+	if rng.IntN(3) == 0 {
+		x, y = addrSpec{Name: "quic-pub", Addr: "/ip4/1.2.3.5/udp/4001/quic-v1", Class: "must", Script: "fail", Script2: "ok", DelayU: 1007},
+			addrSpec{Name: "tcp-pub", Addr: "/ip4/1.2.3.4/tcp/4001", Class: "must", FD: true, Script: "hang", DelayU: 7}
+	}
+	sc.Addrs = []addrSpec{x, y}
+	switch rng.IntN(3) {
+	case 0: // joiner after the back-off has expired
+		sc.Callers = []caller{{AtU: 0, CancelU: -1, TimeoutU: 500300}, {AtU: 1000000, CancelU: -1}, {AtU: 10000000 + 1000000*rng.IntN(3), CancelU: -1}}
+		sc.Joiner, sc.MustDial = 2, x.Addr
+	case 1: // force-direct joiner inside the back-off
+		sc.Callers = []caller{{AtU: 0, CancelU: -1, TimeoutU: 500300}, {AtU: 1000000, CancelU: -1}, {AtU: 3000000, CancelU: -1, Force: true}}
+		sc.Joiner, sc.MustDial = 2, x.Addr
+	default: // an executed relay dial that fails with a wrapped back-off error; a joiner after 8 s
+		rel := addrSpec{Name: "relay", Addr: fmt.Sprintf("/ip4/9.9.9.9/tcp/4001/p2p/%s/p2p-circuit", pool.ID[relayPeerIdx]), Class: "must", Relay: true, Script: "fail", DelayU: 2007, WrapBackoff: true}
+		sc.Addrs = []addrSpec{rel, y}
+		sc.Callers = []caller{{AtU: 0, CancelU: -1}, {AtU: 8000000 + 1000000*rng.IntN(3), CancelU: -1}}
+	}
+	return sc
+}
+
 func gen(r *run.R, i int, perPeer, fd int) *scenario {
 	rng := r.Rand(5, uint64(i))
 	pool := swarmrig.Pool(64)
@@ -324,7 +367,14 @@ func runScenario(t *testing.T, sc *scenario) (res result) {
 			if sp == nil {
 				return scripttpt.Outcome{Kind: "fail"}
 			}
-			return scripttpt.Outcome{Kind: sp.Script, Delay: time.Duration(sp.DelayU) * time.Microsecond, Progress: sp.Prog, AsPeer: wrong, IgnoreCancel: sp.Late}
+			out := scripttpt.Outcome{Kind: sp.Script, Delay: time.Duration(sp.DelayU) * time.Microsecond, Progress: sp.Prog, AsPeer: wrong, IgnoreCancel: sp.Late}
+			if attempt > 0 && sp.Script2 != "" {
+				out.Kind = sp.Script2
+			}
+			if sp.WrapBackoff {
+				out.Err = fmt.Errorf("relay: failed to dial the relay: %w", swarm.ErrDialBackoff)
+			}
+			return out
 		}, swarm.WithDialTimeout(15*time.Second), swarm.WithDialTimeoutLocal(5*time.Second))
 		if err != nil {
 			panic(err)
@@ -573,6 +623,24 @@ func check(sc *scenario, res *result) (out []finding, st map[string]int) {
 			}
 		}
 	}
+	// backoff-join: the address that is out of back-off for the joiner
+	if sc.MustDial != "" && sc.Joiner < len(res.Callers) && res.Callers[sc.Joiner].Returned {
+		jr := res.Callers[sc.Joiner]
+		want := ma.StringCast(sc.MustDial).String()
+		dialled := false
+		for _, e := range res.Events {
+			if e.Kind == "dial.start" && e.Addr == want && e.AtU >= jr.StartU {
+				dialled = true
+			}
+		}
+		st["backoff_join_scenarios"]++
+		if dialled {
+			st["backoff_join_address_dialled_for_the_joiner"]++
+		} else if jr.Err != "" {
+			out = append(out, finding{"error-although-address-out-of-backoff-never-attempted", fmt.Sprintf("caller %d (called at %d us, force-direct=%v) failed with %q although %s was not in back-off for it and was never handed to a transport after its call",
+				sc.Joiner, jr.StartU, sc.Callers[sc.Joiner].Force, jr.Err, sc.MustDial)})
+		}
+	}
 	// epochs of waiting callers over the logical clock (exact in staggered scenarios)
 	if sc.Staggered {
 		active := 0
@@ -758,6 +826,9 @@ func TestC05(t *testing.T) {
 			if i%8 == 5 {
 				sc = genLateJoin(r, ci*1000000+i, cf.perPeer, cf.fd)
 			}
+			if i%16 == 9 {
+				sc = genBackoffJoin(r, ci*1000000+i, cf.perPeer, cf.fd)
+			}
 			if !r.Want(sc.ID) || r.TooMany() {
 				return
 			}
@@ -803,6 +874,7 @@ func TestC05(t *testing.T) {
 	r.Require("scenarios_with_overlapping_callers", 500)
 	r.Require("transport_dials", 2000)
 	r.Require("callers_released_by_shared_success", 100)
+	r.Require("backoff_join_address_dialled_for_the_joiner", 100)
 }
 
 func overlap(res *result) bool {
